@@ -2000,6 +2000,18 @@ Lemma demo_session_outputs :
       [PError 10 4 14]; [PWriteRsp]; [PError 32 0 6]; [PError 22 7 6] ].
 Proof. vm_compute. reflexivity. Qed.
 
+(** PDUs that are neither requests, commands nor indications (responses nobody asked for, unknown
+    commands): no answer, no effect on the state -- hence none on any later answer *)
+Lemma non_request_ignored st o body hk :
+  req_opcode o = false -> server_step st (UnknownOp o body) hk = (st, []).
+Proof.
+  intros H. unfold server_step, server_step_v. cbn [handle]. unfold unparsed. rewrite H. reflexivity.
+Qed.
+
+Lemma unsolicited_responses_ignored :
+  Forall (fun o => req_opcode o = false) [1; 3; 5; 7; 9; 11; 13; 15; 17; 19; 23; 25; 27; 33; 35; 96; 210].
+Proof. repeat constructor. Qed.
+
 (** the witnesses in the shape of the property theorems *)
 Lemma nonvacuous :
   wf_state demo_state = true /\ tx_locked demo_state = false /\ proc_free demo_state = true
